@@ -264,8 +264,12 @@ class OpGen:
         if isinstance(t, GraphQLUnionType) or isinstance(t, GraphQLInterfaceType):
             r = rng.random()
             if r < 0.3:
-                sels.append("__typename")
-                self.feats.add("typename.explicit")
+                if self.rng.random() < 0.25:
+                    sels.append("%s: __typename" % self.alias())
+                    self.feats.add("typename.aliased")
+                else:
+                    sels.append("__typename")
+                    self.feats.add("typename.explicit")
             if isinstance(t, GraphQLInterfaceType):
                 for fname in self.object_fields(t, depth):
                     sels.append(self.field(t, fname, depth))
@@ -293,7 +297,7 @@ class OpGen:
                 self.feats.add("typename.explicit")
         else:
             if rng.random() < 0.08:
-                sels.append("__typename")
+                sels.append("__typename" if rng.random() < 0.7 else "%s: __typename" % self.alias())
                 self.feats.add("typename.on_object")
             for fname in self.object_fields(t, depth):
                 sels.append(self.field(t, fname, depth))
